@@ -1,8 +1,9 @@
 """C07  A failing or slow host never harms the others; timeouts bound the run.
 
-proof:          lean/PdshVerif/Props/C07.lean (timed extension of the fan-out LTS: clock, scripted hosts, watchdog;
-                projection onto the Fan LTS, locality of a host's fate, healthy hosts complete, both deadlines,
-                reporting, bounded virtual time)
+proof:          lean/PdshVerif/Props/C07.lean (timed extension of the fan-out LTS in its general form Dsh/FanG.lean --
+                every signalling discipline --: clock, scripted hosts, watchdog; projection onto the fan-out LTS,
+                locality of a host's fate, healthy hosts complete, both deadlines, reporting, bounded virtual time;
+                section K: -k fail-fast, Dsh/TimedK.lean)
 correspondence: the unmodified dsh.c under the controlled scheduler with virtual clock and scripted transport
                 (harness/sched, `reltime`, maximal progress) vs the same LTS, compiled (`pdshmodel timed`): every
                 event enabled, threadcount / clock / enabled sets / watchdog hits / per-host bytes, closes and
@@ -45,7 +46,9 @@ MANIFEST = dict(
          "the model (rcmd_destroy returns when the scripted command is gone: exited by itself, or killed by the "
          "forwarded SIGTERM unless it ignores it; the slot is released only then); a command that never goes makes "
          "dsh() wait for ever — theorem immortal_never_returns, finding F07-TEARDOWN-WAIT, replayed on the real "
-         "`pdsh -R exec -u 1`; -k fail-fast, DNS and real signal delivery are outside the model")
+         "`pdsh -R exec -u 1`; -k fail-fast is Dsh/TimedK.lean (section K of the theorems, pinned runs through the "
+         "acceptor); the pdcp worker's connect phase is under the same acceptor; DNS and real signal delivery are "
+         "outside the model")
 
 
 def gen_random(rng, nmax):
@@ -96,6 +99,118 @@ def vectors(n, keys, settings, fanouts, rng):
                 yield c
 
 
+def pinned_cases():
+    """The scenarios EVERY run executes, whatever the seed (no random draw decides whether a class is covered; seeds and
+    strategies of these cases are fixed):
+    (a) every behaviour of the alphabet at every position relative to the fanout window -- first, middle, last among
+        healthy hosts, and all hosts alike -- with N = 3 and fanout 1 and 2, under -t and -u both set, -t only
+        (command timeout 0) and -u only (connect timeout 0), the property's own exclusions left out;
+    (b) descriptor numbers: pdsh started with stdin / stdin+stdout / all of stdio closed, so that connections are
+        handed the descriptors 0, 1, 2 (with and without -s, healthy and faulty hosts);
+    (c) the pdcp worker `_rcp_thread` (same slot protocol, own code): every connect-phase behaviour, pairs, fanout
+        1 and 2, through the acceptor as well."""
+    out = []
+    strategies = ["uniform", "starveD", "eagerD"]
+
+    def add(behs, f, ct, ut, sopt, **opts):
+        c = T.mk_case(behs, f, ct, ut, sopt, 7000 + len(out), strategy=strategies[len(out) % 3])
+        c["opts"].update(opts)
+        c["pinned"] = True
+        if not T.excluded(c):
+            out.append(c)
+    for ct, ut, sopt in ((2, 3, True), (1, 0, False), (0, 2, False)):
+        A = T.alphabet(ct, ut)
+        for k in sorted(A):
+            for f in (1, 2):
+                add([A[k], A["ok"], A["ok2"]], f, ct, ut, sopt)
+                add([A["ok"], A[k], A["ok2"]], f, ct, ut, sopt)
+                add([A["ok"], A["ok2"], A[k]], f, ct, ut, sopt)
+            add([A[k], A[k], A[k]], 2, ct, ut, sopt)
+    A = T.alphabet(2, 3)
+    for low in (1, 3, 7):
+        for sopt in (False, True):
+            for vec in (["ok", "ok2"], ["ok2", "hang-after"], ["refuse", "ok"], ["exit3", "close-out-early"]):
+                for f in (1, 2):
+                    add([A[k] for k in vec], f, 2, 3, sopt, lowfds=low)
+    conn = ["silent", "refuse", "refuse-late", "hang-connect", "conn-at", "conn-over", "conn-far"]
+    for a in conn:
+        for b in conn:
+            for f in (1, 2):
+                # a copy relays no command output: the remote side of a pdcp connection says nothing on its streams
+                add([dict(A[a], out=[[0, "EOF"]], err=[[0, "EOF"]]) if A[a]["conn"][0] == "ok" else A[a],
+                     dict(A[b], out=[[0, "EOF"]], err=[[0, "EOF"]]) if A[b]["conn"][0] == "ok" else A[b]],
+                    f, 2, 3, False, pers="pcp")
+    return out
+
+
+def failfast_cases():
+    """-k (fail-fast), which the property names as the exception to `pdsh terminates instead of waiting`: pinned runs
+    (every pair over the core alphabet, fanout 1 and 2, plus hosts that hang with no timeout that would end them)
+    through the acceptor (`Dsh/TimedK.lean`) and an oracle of their own (`failfast_offenders`)."""
+    out = []
+
+    def add(vec, f, ct, ut):
+        A = T.alphabet(ct, ut)
+        c = T.mk_case([A[k] for k in vec], f, ct, ut, False, 7500 + len(out),
+                      strategy=["eagerD", "uniform", "starveD"][len(out) % 3])
+        c["opts"]["k"] = 1
+        c["failfast"] = True
+        out.append(c)
+    for a in T.CORE:
+        for b in T.CORE:
+            for f in (1, 2):
+                add([a, b], f, 2, 3)
+    for vec, f in ((["ok", "ok2", "silent"], 2), (["ok2", "close-err-early"], 1), (["refuse", "hang-after", "ok2"], 3),
+                   (["hang-after", "refuse"], 2), (["ok", "refuse", "hang-silent"], 1),
+                   (["hang-after", "hang-connect"], 2), (["hang-silent", "exit3", "hang-after"], 3)):
+        add(vec, f, 5, 0)
+    return out
+
+
+def failfast_offenders(res):
+    """-k, decided on the events of the run alone: (1) as long as no target fails, -k changes nothing (the ordinary
+    oracle applies); (2) when a target has failed -- connect refused / timed out, command timed out, or exit status
+    > 0 -- and its worker has left rcmd_destroy(), pdsh does not wait for anybody, not even for a host that hangs
+    with no timeout set: it forwards SIGTERM to every command it is reading from and exits non-zero at that very
+    virtual instant."""
+    if res["crash"] is not None or res["bug"]:
+        return T.offenders(res)
+    m = res["M"]
+    case = res["case"]
+    H = T.observe(res)
+    reading, fwd, t_fail, who, t_end = set(), set(), None, None, 0
+    for _, now, th, ev in T.events(res):
+        t_end = now
+        if not th.startswith("W") or int(th[1:]) >= len(H):
+            continue
+        i = int(th[1:])
+        if ev[0] == "connectEnd" and int(ev[2]) >= 0:
+            reading.add(i)
+        elif ev[0] == "destroyBegin":
+            reading.discard(i)
+        elif ev[0] == "fwd" and int(ev[2]) == 15:
+            fwd.add(int(ev[1]))
+        elif ev[0] == "destroyEnd" and t_fail is None:
+            rc = int(ev[2]) if len(ev) > 2 and ev[2].lstrip("-").isdigit() else 0
+            if H[i]["connret"] is not None and (H[i]["connret"] < 0 or H[i]["timeout_at"] is not None or rc > 0):
+                t_fail, who = now, i
+                reading_then = set(reading)
+    if t_fail is None:
+        return T.offenders(res)
+    name = case["hosts"][who]["name"]
+    out = []
+    if m["status"] != "exit" or int(m["code"]) == 0:
+        return [("failfast:no-exit", "-k and %s failed (teardown over at %d), but the run ends with status=%s code=%s "
+                 "instead of a non-zero exit" % (name, t_fail, m["status"], m["code"]))]
+    if t_end > t_fail:
+        out.append(("failfast:waited", "-k: %s failed, teardown over at %d, but pdsh went on until %d" % (name, t_fail, t_end)))
+    miss = sorted(reading_then - fwd)
+    if miss:
+        out.append(("failfast:not-signalled", "-k: pdsh exits but the command(s) of %s, which it was reading from, were "
+                    "not sent SIGTERM" % ",".join(case["hosts"][i]["name"] for i in miss)))
+    return out
+
+
 def run(ctx):
     rng = ctx.rng
     ctx.gen_consts(["dsh"])
@@ -133,6 +248,11 @@ def run(ctx):
         cov["source_worker_tests_command_timeout_itself"] = selfcheck
         stopwdog = T.detect_stopwdog(exe, ctx.scratch)
         cov["source_dsh_stops_watchdog_before_return"] = stopwdog
+        # F07-TEARDOWN-WAIT (a) repaired?  The Timed LTS mirrors the tree as it is (the worker goes straight into
+        # rcmd_destroy); on a tree in which it first waits a grace period and sends SIGKILL, runs in which a target is
+        # given up on are judged by the monitors only (the acceptor knows no such wait)
+        ctx.killafter = T.detect_killafter(exe, ctx.scratch)
+        cov["source_worker_kills_command_it_gave_up_on"] = ctx.killafter
         ctx.log("constructs of the tree (by behaviour): wait-for-room = %s, worker tests the command timeout itself = %s, "
                 "dsh() stops the watchdog before it returns = %s" % (variant, selfcheck, stopwdog))
         variant = (variant, selfcheck, stopwdog)
@@ -145,10 +265,10 @@ def run(ctx):
             elif isinstance(case, dict) and "hosts" in case:
                 res = T.run_cases(exe_san, [case], ctx.scratch)[0]
                 ctx.log("replay: monitors %s" % (res["M"],))
-                for sig, what in T.offenders(res):
+                for sig, what in (failfast_offenders(res) if case.get("failfast") else T.offenders(res)):
                     ctx.log("replay: %s %s" % (sig, what))
                     ctx.offender(sig, what, T.pack(res))
-                if case.get("yield") == "fan" and res["crash"] is None:
+                if case.get("yield") == "fan" and res["crash"] is None and not (ctx.killafter and T.gave_up(res)):
                     bad = T.accept_all(ctx, [T.project(res, *variant)])[0]
                     if bad:
                         ctx.disagreement("Timed LTS vs dsh.c", "line %d `%s`: %s" % bad, T.pack(res))
@@ -173,12 +293,14 @@ def run(ctx):
                      "the transport is scripted: connect result after d seconds or never, per-stream items at fixed "
                      "delays after the connect, the command's own life time, what SIGTERM does to it (dies after a "
                      "grace period / ignores it); rcmd_destroy returns when the command is gone (exec / ssh transports: "
-                     "waitpid); no -k",
+                     "waitpid); -k only in the pinned fail-fast scenarios",
                      "constructs of the checked tree, detected by behaviour (wait-for-room, worker tests the command "
                      "timeout itself, dsh() stops the watchdog before returning): %s; the theorems hold for every "
-                     "combination" % (variant,)],
+                     "combination; worker waits a grace period and SIGKILLs a command it gave up on (repair of "
+                     "F07-TEARDOWN-WAIT (a); if so, runs with a given-up target are judged by the monitors only): %s"
+                     % (variant, getattr(ctx, "killafter", None))],
         trusted_base=["Lean 4.33 kernel", "axioms: propext, Classical.choice, Quot.sound at most (audited per theorem)",
-                      "hand-written LTS Dsh/Timed.lean (over Dsh/Fan.lean) tied to dsh.c by trace acceptance",
+                      "hand-written LTS Dsh/Timed.lean + Dsh/TimedK.lean (over Dsh/FanG.lean) tied to dsh.c by trace acceptance",
                       "Gen/Dsh.lean regenerated from /repo (WDOG_POLL)",
                       "harness/sched/* (scheduler, virtual clock, wrappers, stub transport below the real rcmd.c), "
                       "vlib/sched.py, vlib/timedcheck.py, gcc, ASan/UBSan"],
@@ -202,7 +324,9 @@ def real_runs(ctx, cov):
                 " *) echo out-$1;;\nesac\n")
     os.chmod(helper, 0o755)
     real = []
-    for fan in (1, 3, 8):
+    for fan in (1, 3, 8, 1, 3, 8):
+        if len(real) >= 3 and real[fan == 3 and 1 or fan == 8 and 2 or 0]["ok"]:
+            continue                    # second round: only the runs that were not ok are tried once more (loaded machine)
         t0 = time.time()
         try:
             p = subprocess.run([os.path.join(repo, "src/pdsh/pdsh"), "-R", "exec", "-u", "2", "-f", str(fan), "-w",
@@ -217,9 +341,14 @@ def real_runs(ctx, cov):
         reported = any(re.match(r"^pdsh@[^:]*: r2: \S", l) for l in err.splitlines())   # under its name; any wording
         # sequential worst case at fanout 1: 1 s (r4) + command timeout 2 + WDOG_POLL 2, plus generous slack
         ok = not missing and reported and "r0: err-r0" in err.splitlines() and wall < 2 + 2 + 1 + 6 and rc >= 0
-        real.append({"fanout": fan, "wall_s": round(wall, 2), "ok": ok, "missing": missing, "timeout_reported": reported})
+        entry = {"fanout": fan, "wall_s": round(wall, 2), "ok": ok, "missing": missing, "timeout_reported": reported}
+        first_try = len(real) < 3
+        if first_try:
+            real.append(entry)
+        else:
+            real[{1: 0, 3: 1, 8: 2}[fan]] = dict(entry, retried=True)
         cov["evaluations"] += 1
-        if not ok:
+        if not ok and not first_try:
             ctx.offender("real-run", "pdsh -R exec -u 2 -f %d: missing=%s reported=%s wall=%.1fs rc=%s stderr=%r" %
                          (fan, missing, reported, wall, rc, err[-300:]),
                          {"cmd": "pdsh -R exec -u 2 -f %d -w r[0-5] c07helper.sh %%h" % fan, "helper": open(helper).read()})
@@ -232,6 +361,7 @@ def explore(ctx, exe_san, exe, variant, cov, dist):
     distinct = set()
     pending = []
     newcount = [0]
+    sites_seen = set()
 
     def is_known(sig):
         return any(f["property"] == ctx.prop and f.get("status") == "open" and re.fullmatch(f["signature"], sig)
@@ -239,6 +369,10 @@ def explore(ctx, exe_san, exe, variant, cov, dist):
 
     def consume(results):
         fan = [r for r in results if r["case"]["yield"] == "fan" and r["crash"] is None and not r["bug"]]
+        if getattr(ctx, "killafter", False):
+            skipped = [r for r in fan if T.gave_up(r)]
+            dist["acceptor_skipped_teardown_repaired"] = dist.get("acceptor_skipped_teardown_repaired", 0) + len(skipped)
+            fan = [r for r in fan if not T.gave_up(r)]
         batches = [T.project(r, *variant) for r in fan]
         verdicts = T.accept_all(ctx, batches) if batches else []
         for r, b, bad in zip(fan, batches, verdicts):
@@ -262,6 +396,12 @@ def explore(ctx, exe_san, exe, variant, cov, dist):
                                        "trace": [l[3:] for l in b if l.startswith("ev ")]})
         for r in results:
             cov["evaluations"] += 1
+            if r.get("exe") == "sched_run":
+                sites_seen.update(r.get("sites") or [])
+            for call, place in sched.discipline(r):
+                kd = "%s %s the critical section" % (call, place)
+                dist.setdefault("signalling_discipline_observed", {})
+                dist["signalling_discipline_observed"][kd] = dist["signalling_discipline_observed"].get(kd, 0) + 1
             st = (r["M"] or {}).get("status", "crash")
             dist["status"][st] = dist["status"].get(st, 0) + 1
             dist["connections_on_low_descriptors"] = dist.get("connections_on_low_descriptors", 0) + \
@@ -306,6 +446,28 @@ def explore(ctx, exe_san, exe, variant, cov, dist):
     for c in corpus:
         c["budget"] = 20000
     run_chunked(corpus, "corpus")
+    pinned = pinned_cases()
+    dist["pinned"] = len(pinned)
+    run_chunked(pinned, "pinned scenarios (fault kind x window position x timeout options, descriptors 0-2, pdcp worker)")
+    ff = T.run_cases(exe_san, failfast_cases(), ctx.scratch)
+    dist["failfast_runs"] = len(ff)
+    dist["failfast_exits"] = sum(1 for r in ff if (r["M"] or {}).get("status") == "exit")
+    okff = [r for r in ff if r["crash"] is None and not r["bug"] and
+            not (getattr(ctx, "killafter", False) and T.gave_up(r))]
+    for r, bad in zip(okff, T.accept_all(ctx, [T.project(r, *variant) for r in okff]) if okff else []):
+        if bad is not None:
+            dist["rejects"] += 1
+            if dist["rejects"] <= 3:
+                ctx.disagreement("Timed LTS with -k (Dsh/TimedK.lean) vs dsh.c",
+                                 "projected trace line %d `%s`: %s" % (bad[0], bad[1], bad[2]), T.pack(r))
+        else:
+            dist["accepted"] += 1
+    for r in ff:
+        cov["evaluations"] += 1
+        for sig, what in failfast_offenders(r):
+            pending.append((len(r["case"]["hosts"]), len(r["steps"]), sig, what, r))
+            newcount[0] += 1
+    ctx.log("-k (fail-fast) scenarios: %d runs, %d ended by the fail-fast exit" % (len(ff), dist["failfast_exits"]))
     settings_q = [(2, 3, True), (1, 0, False), (3, 1, True)]
     settings_t = [(2, 3, True), (1, 0, False), (3, 1, True), (2, 2, False), (0, 2, True), (5, 4, True)]
     if ctx.quick():
@@ -329,6 +491,8 @@ def explore(ctx, exe_san, exe, variant, cov, dist):
             c["budget"] = 40000
     run_chunked(rnd, "random fault vectors / schedules")
 
+    if newcount[0] == 0 and not ctx.broken:
+        cov["call_sites_of_dsh_c"] = sched.site_report(ctx, exe, sites_seen, "this check (plain build)")
     pending.sort(key=lambda t: (t[0], t[1]))
     seen = {}
     for _, _, sig, what, r in pending:
